@@ -131,6 +131,32 @@ def _run_enum_shard(sub, tier, seed, shard, nshards):
 def _worker(task):
     mod_name, sub_name, tier, seed, shard, nshards, n_cases = task
     os.environ["VERIF_TIER_CURRENT"] = tier
+    cover = os.environ.get("VERIF_COVER_DIR")      # development aid: line coverage of the repository
+    if cover:
+        import threading
+        hits = set()
+        root = env.REPO + os.sep + "gaddlemaps"
+
+        def tracer(frame, event, arg):
+            fn = frame.f_code.co_filename
+            if not fn.startswith(root):
+                return None
+            if event == "line":
+                hits.add((fn, frame.f_lineno))
+            return tracer
+        sys.settrace(tracer)
+        threading.settrace(tracer)
+    try:
+        return _worker_inner(task)
+    finally:
+        if cover:
+            sys.settrace(None)
+            with open(os.path.join(cover, "cov-%s-%s-%d-%d.json" % (mod_name, sub_name, shard, os.getpid())), "w") as f:
+                json.dump(sorted(hits), f)
+
+
+def _worker_inner(task):
+    mod_name, sub_name, tier, seed, shard, nshards, n_cases = task
     try:
         mod = importlib.import_module(mod_name)
         sub = [s for s in mod.SUBCHECKS if s.name == sub_name][0]
